@@ -35,6 +35,7 @@ func init() {
 			{Name: "scan-schedules", Run: c10Scan, QuickS: 60, ThoroughS: 900},
 			{Name: "ordered-participants", Run: c10Ordered, QuickS: 60, ThoroughS: 600},
 			{Name: "whole-start-schedules", Run: c10Whole, QuickS: 60, ThoroughS: 900},
+			{Name: "processor-creation-order", Run: c10ProcOrder, Workers: 4, QuickS: 30, ThoroughS: 120},
 		},
 	})
 }
@@ -643,4 +644,52 @@ func c10Whole(c *core.Ctx) {
 	for _, cs := range all {
 		run(c, cs)
 	}
+}
+
+// ---- two ordered user post-processors, the later-ordered one depends on a component the
+// earlier-ordered one substitutes: which version it gets must not depend on the order in which
+// the registries enumerate the two processors
+
+func c10ProcOrder(c *core.Ctx) {
+	type pc struct {
+		Edges [][]int `json:"edges"`
+		Plan  int     `json:"plan"`
+		Base  []int   `json:"base"`
+	}
+	gen := func(yield func(pc) bool) {
+		allGraphs(2, []int{scen.ENone, scen.EName, scen.ESlice}, false, func(e [][]int) bool {
+			for _, plan := range []int{scen.WrapAfter, scen.WrapBefore, scen.WrapEarlyAfterSame} {
+				for _, base := range [][]int{{0, 1}, {1, 0}} {
+					if !yield(pc{e, plan, base}) {
+						return false
+					}
+				}
+			}
+			return true
+		})
+	}
+	Cases(c, gen, func(c *core.Ctx, cs pc) {
+		run := func(first bool) string {
+			p := &scen.GraphProg{N: 2, Edges: cs.Edges, Wrap: []int{cs.Plan, 0}, Base: cs.Base, Config: true, Obs: 1, ProcNode: true, OrderedProcs: true, ProcNodeFirst: first}
+			o := scen.RunGraph(p, envx.Fixed("", nil))
+			c.S.Evaluations++
+			c.S.States++
+			c.S.Transitions += int64(o.Trace.Calls)
+			dep := "-"
+			if o.ProcNode != nil {
+				dep = o.ProcNode.SeenDepType
+			}
+			return graphWiringSig(o) + "|processor sees " + dep
+		}
+		a, b := run(false), run(true)
+		c.S.Programs++
+		c.S.Nontrivial++
+		if a != b {
+			c.Outcome("procorder/differs")
+			c.Report("C10/procorder/"+core.Hash(cs), "order-dependent", fmt.Sprintf("graph %v, node a substituted (plan %d) by a processor of Order 100, a second processor of Order 200 depends on a: outcome %q when the registries enumerate the first processor first, %q when they enumerate the second one first", cs.Edges, cs.Plan, a, b), cs)
+			return
+		}
+		c.Outcome("procorder/same")
+		c.Sample(map[string]any{"case": cs, "outcome": a})
+	})
 }
